@@ -7,7 +7,13 @@ Runtime monitoring of the real mesonbuild code (from $VERIF_REPO):
   * contracts (icontract, vf.monitors.c14_contracts) on do_conf_str / do_replacement_meson /
     do_define_meson / dump_conf_header, evaluated on every call of those runs;
   * through the real configure_file(): batches of ~30 templates + ~6 template-less headers per generated
-    project, `meson setup --backend=none` in the fork server, file bytes / encodings / warnings compared.
+    project, `meson setup --backend=none` in the fork server, file bytes / encodings / warnings compared;
+  * sequences inside one meson.build: families of configuration_data() objects (assignment copies, set,
+    merge_from) handed to several configure_file() calls, and ONE object (booleans, integers, strings) handed to
+    calls of DIFFERENT formats (meson / cmake / cmake@ template, c / nasm / json without template) in every
+    ordered pair and in orders of all six: every output must be the documented rendering of the values the
+    build file set (a call changes nothing for the later ones), and the object read back afterwards through
+    get() / get_unquoted() / has() / keys() must show those values, types included.
 """
 from __future__ import annotations
 
@@ -562,14 +568,39 @@ def build_project(rng: random.Random, src: str, ntemplates: int, nheaders: int, 
     return tcases, hcases
 
 
+SEQ_TEMPLATE_FMT = {'template': 'meson', 'template-cmake': 'cmake', 'template-cmake@': 'cmake@'}
+
+
+def sequence_template(fmt: str, keys: T.Sequence[str]) -> str:
+    """The template a sequence step configures: every key of the universe (set or not at that moment) and one
+    name that is never set, in every documented placeholder form of the format."""
+    if fmt == 'meson':
+        return ''.join(f'#mesondefine {k}\n{k}=[@{k}@]\n' for k in keys)
+    return ''.join(f'#cmakedefine {k}\n#cmakedefine01 {k}\n#cmakedefine {k} is @{k}@ here\n{k}=[@{k}@] <${{{k}}}>\n'
+                   for k in keys)
+
+
+def same_data(a: T.Any, b: T.Any) -> bool:
+    """Equality of two plain dictionaries that tells true from 1 (Python's == does not)."""
+    if not isinstance(a, dict) or not isinstance(b, dict) or set(a) != set(b):
+        return False
+    return all(type(a[k]) is type(b[k]) and a[k] == b[k] for k in a)
+
+
 def add_sequence(rng: random.Random, q: int, mb: T.List[str], files: T.Dict[str, T.Union[str, bytes]],
-                 tcases: T.List[dict], hcases: T.List[dict], bag: Bag) -> None:
+                 tcases: T.List[dict], hcases: T.List[dict], bag: Bag,
+                 ops: T.Optional[T.List[T.Tuple[T.Any, ...]]] = None, plain_set: bool = False) -> None:
     """A family of configuration_data() objects related by assignment, used by several configure_file() calls
-    with merge_from()/set()/assignment in between.  After every step the expected content is that of the data
-    of THAT object AT THAT MOMENT according to the build definition (model kept here: assignment copies)."""
-    ops = G.gen_sequence(rng)
+    (of every format: meson / cmake / cmake@ templates, c / nasm / json without template) with
+    merge_from()/set()/assignment in between.  After every step the expected content is that of the data
+    of THAT object AT THAT MOMENT according to the build definition (model kept here: assignment copies; a
+    configure_file() call changes nothing).  At the end every member of the family is read back through the
+    build language (get / get_unquoted / keys)."""
+    if ops is None:
+        ops = G.gen_sequence(rng)
     universe = ops[-1][1]
     models: T.List[T.Dict[str, T.Tuple[T.Any, T.Optional[str]]]] = [{}]
+    emitted: T.List[T.List[str]] = [[]]       # per object: kinds of the configure_file() calls it went through
     names = [f'sq_{q}']
     step = 0
     nmerge = 0
@@ -582,7 +613,7 @@ def add_sequence(rng: random.Random, q: int, mb: T.List[str], files: T.Dict[str,
         held: T.Dict[str, T.Tuple[T.Any, T.Optional[str]]] = {}
         for k, (v, d) in entries.items():
             dk = f', description: {mstr(d)}' if d else ''
-            r = rng.random()
+            r = 1.0 if plain_set else rng.random()
             if isinstance(v, str) and r < 0.2 and '"' not in v and '\\' not in v:
                 mb.append(f'{target}.set_quoted({mstr(k)}, {mstr(v)}{dk})')
                 held[k] = ('"' + v + '"', d)
@@ -604,6 +635,7 @@ def add_sequence(rng: random.Random, q: int, mb: T.List[str], files: T.Dict[str,
             names.append(f'sq_{q}_c{dst_i}')
             mb.append(f'{names[dst_i]} = {names[src_i]}')
             models.append(dict(models[src_i]))
+            emitted.append([])        # the copy is a new object: it went through no call yet
             history.append('copy:%d>%d' % (src_i, dst_i))
             bag.cells['sequence:assignment-copy'] = bag.cells.get('sequence:assignment-copy', 0) + 1
         elif op[0] == 'set':
@@ -634,21 +666,36 @@ def add_sequence(rng: random.Random, q: int, mb: T.List[str], files: T.Dict[str,
             bag.tally.add('monitor:sequence-steps')
             if len(names) > 1:
                 bag.tally.add('monitor:sequence-steps-in-a-family-of-copies')
-            if kind == 'template':
-                text = ''.join(f'#mesondefine {k}\n{k}=[@{k}@]\n' for k in sorted(universe) + ['NEVER_SET'])
-                case = {'fmt': 'meson', 'text': text, 'data': data, 'markers': {}, 'charset': 'ascii',
+            if emitted[who]:
+                bag.tally.add('monitor:sequence-steps-after-another-format'
+                              if any(k != kind for k in emitted[who]) else 'monitor:sequence-steps-after-the-same-format')
+                for prev in sorted(set(emitted[who])):
+                    cell = 'sequence-order:%s>%s' % (prev, kind)
+                    bag.cells[cell] = bag.cells.get(cell, 0) + 1
+            if kind in SEQ_TEMPLATE_FMT:
+                fmt = SEQ_TEMPLATE_FMT[kind]
+                text = sequence_template(fmt, sorted(universe) + ['NEVER_SET'])
+                case = {'fmt': fmt, 'text': text, 'data': data, 'markers': {}, 'charset': 'ascii',
                         'cells': [], 'shape': shape}
                 real = do_case(bag, case, mode='file')
                 bag.shapes.add(common.digest(shape))
+                if real[0] != 'ok':
+                    # (a cmake value that mentions itself, ...) the call would stop the whole project: not made
+                    bag.tally.add('sequence:template-step-rejected-in-process-and-left-out')
+                    history[-1] += ':left-out'
+                    continue
+                emitted[who].append(kind)
                 files[name + '.in'] = text.encode('utf-8')
                 seq_files[name + '.in'] = text
-                mb.append(f"configure_file(input: '{name}.in', output: '{name}.out', configuration: {obj})")
+                mb.append(f"configure_file(input: '{name}.in', output: '{name}.out', configuration: {obj}"
+                          + (f", format: '{fmt}'" if fmt != 'meson' else '') + ')')
                 if real[0] == 'ok':
                     tcases.append({'name': name, 'case': case, 'encoding': None, 'inproc_out': ''.join(real[1]),
                                    'inproc_missing': sorted(real[2]), 'style': 'sequence',
                                    'sequence': {'history': list(history), 'meson_build': mb[start:],
                                                 'files': dict(seq_files), 'output': name + '.out', 'input': name + '.in'}})
             else:
+                emitted[who].append(kind)
                 ext = {'c': 'h', 'nasm': 'asm', 'json': 'json'}[kind]
                 kw = [f"output: '{name}.{ext}'", f'configuration: {obj}']
                 if kind != 'c':
@@ -661,6 +708,49 @@ def add_sequence(rng: random.Random, q: int, mb: T.List[str], files: T.Dict[str,
                                'sequence': {'history': list(history), 'meson_build': mb[start:], 'files': dict(seq_files),
                                             'output': f'{name}.{ext}'}})
             step += 1
+    # every member of the family read back through the build language after all the calls: get() returns the
+    # value that was set (type included), get_unquoted() the same without surrounding double quotes, keys() the
+    # keys (docs/yaml/objects/cfg_data.yaml); written by a template-less json configure_file() of a FRESH dictionary
+    for i, obj in enumerate(names):
+        expect: T.Dict[str, T.Any] = {'has:NEVER_SET': False}
+        kw = [f"'has:NEVER_SET': {obj}.has('NEVER_SET')"]
+        for k, (v, _d) in sorted(models[i].items()):
+            kw.append(f"{mstr('get:' + k)}: {obj}.get({mstr(k)})")
+            expect['get:' + k] = v
+            if isinstance(v, str) and len(v) < 2:
+                continue        # nothing documented about quotes of an empty / one-character value
+            kw.append(f"{mstr('unq:' + k)}: {obj}.get_unquoted({mstr(k)})")
+            expect['unq:' + k] = v[1:-1] if isinstance(v, str) and v[0] == '"' and v[-1] == '"' else v
+        if models[i]:
+            kw.append(f"'keys': ','.join({obj}.keys())")
+        name = f'sq_{q}_o{i}.json'
+        mb.append(f"configure_file(output: '{name}', output_format: 'json', configuration: {{" + ', '.join(kw) + '})')
+        history_o = list(history) + ['read-back:%d' % i]
+        hcases.append({'name': name, 'observe': True, 'expect': expect, 'keys': sorted(models[i]),
+                       'after': list(emitted[i]), 'shape': ('sequence-read-back', tuple(history_o)),
+                       'sequence': {'history': history_o, 'meson_build': mb[start:], 'files': dict(seq_files),
+                                    'output': name}})
+
+
+def check_read_back(text: str, expect: T.Mapping[str, T.Any], keys: T.Sequence[str]) -> T.Optional[str]:
+    """None if the json written from obj.get()/get_unquoted()/has()/keys() shows the entries the build
+    definition gave the object (value AND type; the order of keys() is not documented, not demanded)."""
+    try:
+        got = json.loads(text)
+    except ValueError as e:
+        return 'json-unparsable: %s' % e
+    if not isinstance(got, dict):
+        return 'json-not-an-object'
+    if keys:
+        ks = got.pop('keys', None)
+        if not isinstance(ks, str) or sorted(ks.split(',')) != sorted(keys):
+            return 'keys(): %r' % (ks,)
+    if set(got) != set(expect):
+        return 'entries-differ: %r' % sorted(set(got) ^ set(expect))
+    for k in sorted(expect):
+        if type(got[k]) is not type(expect[k]) or got[k] != expect[k]:
+            return '%s is %r, the build definition set %r' % (k, got[k], expect[k])
+    return None
 
 
 def parse_missing_warnings(out: str) -> T.Dict[str, T.Set[str]]:
@@ -682,9 +772,26 @@ def parse_missing_warnings(out: str) -> T.Dict[str, T.Set[str]]:
     return res
 
 
-def worker_project(job: T.Tuple[int, int, int, int]) -> dict:
-    seed, idx, ntemplates, nheaders = job
-    rng = random.Random(f'C14:file:{seed}:{idx}')
+def build_order_project(rng: random.Random, src: str, part: int, nparts: int, nperm: int, all_perms: bool,
+                        bag: Bag) -> T.Tuple[list, list]:
+    """One configuration_data() object (booleans, integers, strings) per chain, handed to configure_file()
+    calls of different formats one after the other: every ordered pair of the six kinds and orders of all six."""
+    mb: T.List[str] = ["project('c14 format orders', meson_version: '>=1.3.0')", '']
+    files: T.Dict[str, T.Union[str, bytes]] = {}
+    tcases: T.List[dict] = []
+    hcases: T.List[dict] = []
+    for q, ops in enumerate(G.gen_format_orders(rng, part, nparts, nperm, all_perms)):
+        add_sequence(rng, q, mb, files, tcases, hcases, bag, ops=ops, plain_set=(q % 3 != 2))
+        bag.tally.add('monitor:format-order-chains')
+    files['meson.build'] = '\n'.join(mb) + '\n'
+    runner.write_tree(src, files)
+    return tcases, hcases
+
+
+def worker_project(job: T.Tuple[T.Any, ...]) -> dict:
+    seed, idx, ntemplates, nheaders = job[:4]
+    orders: T.Optional[T.Tuple[int, int, bool]] = job[4] if len(job) > 4 else None    # (nparts, nperm, all_perms)
+    rng = random.Random(f'C14:file:{seed}:{idx}' if orders is None else f'C14:orders:{seed}:{idx}')
     bag = Bag()
     K.REC.reset()
     root = common.scratch_dir('c14p') if os.getpid() == common._MAIN_PID else None
@@ -693,9 +800,13 @@ def worker_project(job: T.Tuple[int, int, int, int]) -> dict:
         src = os.path.join(tmp, 'src')
         bdir = os.path.join(tmp, 'build')
         os.makedirs(src)
-        tcases, hcases = build_project(rng, src, ntemplates, nheaders, bag)
+        if orders is None:
+            tcases, hcases = build_project(rng, src, ntemplates, nheaders, bag)
+        else:
+            tcases, hcases = build_order_project(rng, src, idx, orders[0], orders[1], orders[2], bag)
         drain_contracts(bag)     # the pre-runs above were in this process
-        r = runner.meson(['setup', '--backend=none', bdir], cwd=src, monitors=[K.child_monitor], timeout=120)
+        r = runner.meson(['setup', '--backend=none', bdir], cwd=src, monitors=[K.child_monitor],
+                         timeout=120 if orders is None else 300)
         bag.tally.add('file:projects')
         if r.timed_out:
             bag.tally.add('inconclusive:file-project-timeout')
@@ -726,7 +837,7 @@ def worker_project(job: T.Tuple[int, int, int, int]) -> dict:
                 bag.note('harness:meson-build-does-not-carry-the-data',
                          {'mode': 'harness', 'intended': case['data'], 'seen': ev['data']})
                 continue
-            if seqw and ev['data'] != case['data']:
+            if seqw and not same_data(ev['data'], case['data']):
                 # the literal transport (mstr/mval) is validated by every non-sequence item of the same project;
                 # here the object's entries are the result of the statements of the history
                 seqw['data_configure_file_worked_with'] = ev['data']
@@ -764,13 +875,29 @@ def worker_project(job: T.Tuple[int, int, int, int]) -> dict:
         for hc in hcases:
             bag.cases += 1
             bag.shapes.add(common.digest(hc['shape']))
+            if hc.get('observe'):
+                bag.tally.add('monitor:object-read-back')
+                if hc['after']:
+                    bag.tally.add('monitor:object-read-back-after-configure_file')
+                try:
+                    with open(os.path.join(bdir, hc['name']), encoding='utf-8', newline='') as f:
+                        text = f.read()
+                    why = check_read_back(text, hc['expect'], hc['keys'])
+                except (OSError, UnicodeDecodeError) as e:
+                    text, why = '', repr(e)
+                if why is not None:
+                    bag.note('sequence:object-read-back-differs-from-what-was-set',
+                             {'mode': 'read-back', 'expect': hc['expect'], 'keys': hc['keys'],
+                              'configure_file_calls_before': hc['after'], 'sequence': hc['sequence'],
+                              'detail': {'why': why, 'file': text}})
+                continue
             ev = events.get(hc['name'])
             if (ev is None or ev['data'] != hc['data']) and not hc.get('sequence'):
                 bag.tally.add('inconclusive:harness-data-not-transported')
                 bag.note('harness:meson-build-does-not-carry-the-data',
                          {'mode': 'harness', 'intended': hc['data'], 'seen': ev and ev['data']})
                 continue
-            seen_other = ev is not None and ev['data'] != hc['data']
+            seen_other = ev is not None and not same_data(ev['data'], hc['data'])
             bag.tally.add('monitor:header-keys')
             with open(os.path.join(bdir, hc['name']), encoding='utf-8', newline='') as f:
                 text = f.read()
@@ -1158,6 +1285,21 @@ def replay(chk: common.Check, path: str) -> int:
         print('[C14] replay: history', sq['history'], '-> output/warning', 'NOT those of the object as built' if bad else 'as expected')
         print('[C14] replay: witness', 'STILL FAILS' if bad else 'no longer fails')
         return 1 if bad else 0
+    if mode == 'read-back':
+        sq = w['sequence']
+        tmp = common.scratch_dir('c14r')
+        os.makedirs(os.path.join(tmp, 'src'))
+        tree3: T.Dict[str, T.Union[str, bytes]] = {k: v.encode('utf-8') for k, v in sq['files'].items()}
+        tree3['meson.build'] = "project('r', meson_version: '>=1.3.0')\n" + '\n'.join(sq['meson_build']) + '\n'
+        runner.write_tree(os.path.join(tmp, 'src'), tree3)
+        r = runner.meson(['setup', '--backend=none', os.path.join(tmp, 'b')], cwd=os.path.join(tmp, 'src'))
+        why3: T.Optional[str] = 'setup failed'
+        if r.rc == 0:
+            with open(os.path.join(tmp, 'b', sq['output']), encoding='utf-8', newline='') as f:
+                why3 = check_read_back(f.read(), w['expect'], w['keys'])
+        print('[C14] replay: history', sq['history'], '-> read-back verdict:', why3)
+        print('[C14] replay: witness', 'STILL FAILS' if why3 else 'no longer fails')
+        return 1 if why3 else 0
     if mode == 'header' and w.get('sequence'):
         sq = w['sequence']
         tmp = common.scratch_dir('c14r')
@@ -1310,7 +1452,13 @@ def main() -> int:
 
     # 4. through the real configure_file()
     nproj = 20 if quick else 300
-    for part in common.pmap(worker_project, [(chk.seed, i, 30, 6) for i in range(nproj)], jobs):
+    # ... and ONE object through calls of different formats in every order: all 36 ordered pairs of
+    # {meson, cmake, cmake@ template, c, nasm, json without template} + orders of all six (thorough: all 720)
+    norder = 2 if quick else 12
+    order_jobs: T.List[T.Tuple[T.Any, ...]] = [(chk.seed, i, 0, 0, (norder, 6 if quick else 0, not quick))
+                                               for i in range(norder)]
+    proj_jobs: T.List[T.Tuple[T.Any, ...]] = [(chk.seed, i, 30, 6) for i in range(nproj)]
+    for part in common.pmap(worker_project, order_jobs + proj_jobs, jobs):
         merge(chk, total, part)
 
     # 5. histories on one build directory (configure, edit, reconfigure)
@@ -1343,7 +1491,8 @@ def main() -> int:
         ('monitor:scanner-equality', 10000), ('monitor:copy-through', 10000), ('monitor:no-rescan', 2000),
         ('monitor:line-ending', 10000), ('monitor:missing-set', 2000), ('monitor:define-render', 1000),
         ('monitor:define-line-ending', 1000), ('monitor:file-output-equals', 100), ('monitor:missing-warning', 100),
-        ('monitor:header-keys', 30), ('monitor:sequence-steps', 100), ('monitor:line-context-independence', 2000), ('monitor:sequence-steps-in-a-family-of-copies', 50), ('monitor:history-output-current', 200),
+        ('monitor:header-keys', 30), ('monitor:sequence-steps', 100), ('monitor:format-order-chains', 36),
+        ('monitor:sequence-steps-after-another-format', 100), ('monitor:object-read-back-after-configure_file', 50), ('monitor:line-context-independence', 2000), ('monitor:sequence-steps-in-a-family-of-copies', 50), ('monitor:history-output-current', 200),
         ('contract:do_conf_str:confstr_line_count_preserved', 1000),
         ('contract:do_replacement_meson:repl_meson_agrees_with_scanner', 10000),
         ('contract:do_define_meson:define_has_documented_form', 500),
@@ -1356,7 +1505,9 @@ def main() -> int:
         rule=('a case is one template (1-8 lines assembled from %d inline and %d whole-line fragment kinds, with '
               'LF/CRLF/CR/no final terminator) x one configuration dictionary (2-5 names; str incl. placeholder '
               'look-alikes/empty/blank/backslash/non-ASCII, int, bool, undefined; 55%% marker-wrapped) x format '
-              '(meson/cmake/cmake@), or one template-less header; distinct = structural hash of (format, fragment '
+              '(meson/cmake/cmake@), or one template-less header, or one step (configure_file of one of six kinds, or the '
+              'final read-back) of a history of configuration_data() objects inside one meson.build - random families '
+              'and every ordered pair / orders of all six kinds on one object; distinct = structural hash of (format, fragment '
               'kinds and terminator per line, multiset of value classes, marker mode); plus every concatenation of '
               '<=%d symbols of a %d-symbol escape alphabet x 4 dictionaries; trivial cases (no fragment) are not '
               'excluded from evaluations but collapse to one shape')
@@ -1371,6 +1522,9 @@ def main() -> int:
             'lines are split as a text file opened with newline="" does (\\n, \\r\\n, lone \\r)',
             'file mode trusts the monitor record of do_conf_file/dump_conf_header arguments to confirm that the generated '
             'meson.build carried the intended dictionary',
+            'a configuration_data() object is what the build file made it (set/set10/set_quoted/merge_from, assignment '
+            'copies): configure_file() is documented to read it, never to change it; the order of keys() is not demanded; '
+            'get_unquoted() is not asked about values shorter than two characters',
         ],
         exhaustive=False,
         extra={'coverage_cells': cells, 'exhaustive_part': {'alphabet': G.EXH_ALPHABET, 'max_symbols': maxlen,
